@@ -280,9 +280,13 @@ class EnvHandle(object):
         ev_type, grid_type = {"mixed_grid_ts": ("datetime", "timestamp"), "mixed_events_ts": ("timestamp", "datetime")}.get(ts_type, (ts_type, ts_type))
         self.contracts = [world.build_contract(s) for s in spec["contracts"]]
         self.events = []
+        self._ev_type = ev_type
+        self.gen = 0
+        self.loaded_late = set()        # ids of 'late' events handed to the transmitter so far (new_env ops)
+        self.latency_us = spec.get("latency_us", 0)
         for es in spec["events"]:
-            if es.get("via_frame"):
-                continue        # loaded from a table below
+            if es.get("via_frame") or es.get("late"):
+                continue        # loaded from a table below / handed over later, before a new environment is built
             ev = build_event(es, self.contracts, ev_type)
             sink.idmap[id(ev)] = es["id"]
             self.events.append(ev)
@@ -307,14 +311,47 @@ class EnvHandle(object):
         else:
             raise core.HarnessError("unknown state type")
         self.fees = world.build_fees(spec.get("fees"))
+        self._make_env()
+        self.episodes = []
+        self.gen_specs = [self.spec_of_generation()]
+
+    def _make_env(self):
+        spec = self.spec
         self.env = TradingEnv(
             action_space=self.space, state=self.state, reward=build_reward(spec.get("reward")),
             transmitter=self.transmitter, initial_cash=spec.get("cash", 100.0), broker_fees=self.fees,
-            latency=spec.get("latency_us", 0) / 1e6, steps_delay=spec.get("delay", 0),
+            latency=self.latency_us / 1e6, steps_delay=spec.get("delay", 0),
             episode_length=spec.get("episode_length"), sampling_span=spec.get("sampling_span"),
         )
-        sink.envs[tag] = self.env
-        self.episodes = []
+        self.sink.envs[self.tag] = self.env
+
+    def spec_of_generation(self):
+        """The environment's scenario as it stands for the environment object in use now: the latency it
+        was built with and the events its transmitter holds (models are built from this, per episode)."""
+        g = dict(self.spec)
+        g["latency_us"] = self.latency_us
+        g["events"] = [es for es in self.spec["events"] if not es.get("late") or es["id"] in self.loaded_late]
+        return g
+
+    def new_env(self, op):
+        """A new TradingEnv object on the same Transmitter (same spaces, observers and fees), optionally after more
+        events were handed to the transmitter and optionally with another latency - e.g. a latency sweep, or data
+        appended between two backtests."""
+        add = [es for es in self.spec["events"] if es.get("late") and es["id"] in set(op.get("add") or []) and es["id"] not in self.loaded_late]
+        if add:
+            evs = []
+            for es in add:
+                ev = build_event(es, self.contracts, self._ev_type)
+                self.sink.idmap[id(ev)] = es["id"]
+                evs.append(ev)
+                self.loaded_late.add(es["id"])
+            self.events.extend(evs)
+            self.transmitter.add_events(evs)
+        if op.get("latency_us") is not None:
+            self.latency_us = op["latency_us"]
+        self.gen += 1
+        self._make_env()
+        self.gen_specs.append(self.spec_of_generation())
 
     def _load_frames(self, spec, ev_type):
         """Rows flagged via_frame go through Transmitter.add_custom_events (index = time the row becomes
@@ -520,7 +557,7 @@ class EpiSim(object):
             np.random.seed(op["np_seed"] % (2 ** 32))
             random.seed(op["np_seed"])
         rec = {"seq": self.sink.next_seq(), "kind": "reset", "env": h.tag, "fold": op.get("fold"), "exc": None,
-               "episode_length_arg": op.get("episode_length")}
+               "episode_length_arg": op.get("episode_length"), "env_gen": h.gen}
         self.api.append(rec)
         self.sink.records.append(rec)
         self.stats["resets"] += 1
@@ -535,7 +572,7 @@ class EpiSim(object):
             site, chain = _raise_site(e.__traceback__)
             rec.update({"exc": type(e).__name__, "msg": str(e)[:300], "site": site})
             rec["end_seq"] = self.sink.next_seq()
-            h.episodes.append({"reset": rec, "steps": [], "failed": True, "ended": True})
+            h.episodes.append({"reset": rec, "steps": [], "failed": True, "ended": True, "gen": h.gen})
             if reraise:
                 raise
             return
@@ -544,7 +581,7 @@ class EpiSim(object):
         rec.update({"obs": canon(obs) if not isinstance(obs, IState) else "state", "now": h.env.now(), "clock": AbstractContract.now,
                     "done": bool(getattr(h.env, "_done", False)), "books": h.books(), "hold": hq, "nlv": h.nlv(), "hist": h.histories(),
                     "end_seq": self.sink.next_seq()})
-        h.episodes.append({"reset": rec, "steps": [], "failed": False, "ended": bool(rec["done"])})
+        h.episodes.append({"reset": rec, "steps": [], "failed": False, "ended": bool(rec["done"]), "gen": h.gen})
         self.stats["episodes"] += 1
         return obs
 
@@ -555,6 +592,8 @@ class EpiSim(object):
         ep = h.episodes[-1] if h.episodes else None
         if ep is not None and ep["failed"]:
             return      # reset() raised: there is no episode to step (the environment is half reset)
+        if ep is not None and ep.get("gen", 0) != h.gen:
+            return      # a new environment object that has not been reset yet
         action = h.resolve_action(op["action"])
         n_before = len(h.env.broker.track_record)
         hold_before = h.holdings()[0]
@@ -688,6 +727,12 @@ class EpiSim(object):
                 AbstractContract.now = core.parse_t(op["t"])
                 self.fault("foreign_clock_write")
                 self.sink.records.append({"seq": self.sink.next_seq(), "kind": "clock", "t": core.parse_t(op["t"])})
+            elif name == "new_env":
+                h = self.handles[op.get("env", 0)]
+                h.new_env(op)
+                self.fault("new_environment_on_same_transmitter")
+                if op.get("add"):
+                    self.fault("events_added_before_new_environment")
             elif name == "arm":
                 # fault: the n-th observer callback of this environment from now on raises (None disarms)
                 self.sink.bombs[op.get("env", 0)] = op.get("n")
